@@ -167,6 +167,14 @@ def _dispatch_telemetry(
             yield outcome
         except BaseException as exc:
             hook_exc = exc
+            if outcome.status == "ok":
+                # An exception is leaving the shell without the shell having
+                # recorded it: the client will not see a success, so the access
+                # log must not report one.
+                outcome.status = "error"
+                outcome.error_type = type(exc).__name__
+                outcome.error_message = str(exc)
+                outcome.http_status = HTTPStatus.INTERNAL_SERVER_ERROR
             raise
     finally:
         duration_ms = (time.monotonic() - start) * 1000
